@@ -158,3 +158,29 @@ package histutil
 //@   ensures [remembered-entries-kept] forall i int :: 0 <= i && i < old(len(c.stack)) ==> c.stack[i] === old(c.stack)[i]
 //@   ensures [lands-on-the-new-end] old(c.current) >= old(len(c.stack)) - 1 ==> c.current == old(len(c.stack))
 //@   exit [the-new-entry-is-what-the-source-returned-last] len(c.stack) == old(len(c.stack)) + 1 ==> callis(ncalls - 1, "Cursor.Get") && callerr(ncalls - 1) === nil
+
+// ---- stores: every added command is recorded ----
+// A walk visits "commands added during the session", so every AddCmd on the
+// hybrid store must reach both the shared store and the session store, exactly
+// once each and in that order (the session copy carries the sequence number the
+// shared store allocated), and the in-memory store must append exactly the
+// given command and keep all earlier ones.
+//@ func Store.AddCmd
+//@   trusted
+//@ func Store.AllCmds
+//@   trusted
+//@   pure
+
+//@ func hybridStore.AddCmd
+//@   props C29
+//@   nosafety
+//@   log Store.AddCmd
+//@   results seq err
+//@   exit [recorded-in-shared-and-session-store-exactly-once-each] ncalls == 2 && callis(0, "Store.AddCmd") && callis(1, "Store.AddCmd")
+//@   exit [shared-result-returned] err === callerr(0)
+
+//@ func memStore.AddCmd
+//@   props C29
+//@   ensures [appends-exactly-one] len(s.cmds) == old(len(s.cmds)) + 1
+//@   ensures [the-new-entry-has-the-given-text] s.cmds[len(s.cmds) - 1].Text === cmd.Text
+//@   ensures [earlier-entries-kept] forall i int :: 0 <= i && i < old(len(s.cmds)) ==> s.cmds[i] === old(s.cmds)[i]
